@@ -219,6 +219,10 @@ def gen_stores(rng, k: int, indexed: bool, extra: bool = False, max_n: int = 4, 
             fid = None
             if indexed:
                 fid = int(rng.integers(-5, 400))
+                if rng.random() < 0.2:
+                    # flight_id is a 64-bit integer field: identifiers that a double cannot represent are legal (neighbours
+                    # above 2**53, near the top of the int64 range, large negative ones)
+                    fid = int(rng.choice([2 ** 53, 2 ** 62, -(2 ** 60)])) + int(rng.integers(1, 9))
                 while fid in used:
                     fid = int(rng.integers(-5, 4000))
                 used.add(fid)
